@@ -162,6 +162,7 @@ class Rules:
             self.r_payload_escape(I, seg)
             self.r_mark_provenance(I, seg)
             self.r_expect_survives(I, seg)
+            self.r_lookahead_linear(I, seg)
 
     # -- R-NONEMPTY and R-ERR-PAIR ---------------------------------------------------------------
     MAY_BE_EMPTY = {"EOF", "MacroSep", "MacroStringEmpty", "SEMI", "LPAREN", "RPAREN", "ASSIGN", "COMMA", "FSLASH",
@@ -523,6 +524,42 @@ class Rules:
                  "the mode-stack truncation (rollback) discards pending expectation mode(s) %s that were put on the stack after the "
                  "checkpoint was taken: the missing delimiter will not be diagnosed; removed modes (bottom..top): %s; conditions: %s"
                  % (what, [getattr(m, "variant", "?") for m in removed], "; ".join(seg.st.conds[-4:])[:200]))
+
+    # -- R-LOOKAHEAD-LINEAR: an unbounded look-ahead scan is paid for by consuming what it scanned ------------------
+    def r_lookahead_linear(self, I, seg):
+        """is_macro_amp scans a whole run of '&'.  A scanner loop that calls it and then keeps looping must consume
+        the run it just scanned (advance_by(count)); consuming less re-scans the rest on the next iteration, i.e.
+        quadratic work on a long run (C01: work stays linear in the input length)."""
+        evs = seg.events
+        for idx in range(seg.start, len(evs)):
+            e = evs[idx]
+            if e.kind != "la_scan" or not e.d.get("unbounded") or e.fn != seg.name:
+                continue
+            want = Term("proj1", (e.d["result"],), "u32").key()
+            verdict = None
+            for x in evs[idx + 1:]:
+                if x.kind == "consume" and x.d.get("cursor") == "main":
+                    cnt = x.d.get("count")
+                    if hasattr(cnt, "key") and (cnt.key() == want or repr(want) in repr(cnt.key())):
+                        verdict = True     # the scanned run is consumed as a whole
+                    else:
+                        verdict = False
+                    break
+                if x.kind in ("emit", "leave") and (x.kind == "emit" or x.d.get("callee") == seg.name):
+                    verdict = True         # the scan ended the token / the function: no re-scan of the same run
+                    break
+                if x.kind == "loop_back":
+                    verdict = False
+                    break
+            if verdict is None:
+                continue
+            key = self.sites.key(e)
+            self.bump("R-LOOKAHEAD-LINEAR", "scans", key)
+            I.ob("R-LOOKAHEAD-LINEAR", key, verdict, self.sites.where(e),
+                 "the run scanned by %s is consumed as a whole (or ends the token)" % e.d["scanner"] if verdict else
+                 "%s scans a whole run of characters, but the loop goes on after consuming less than that run: the rest is "
+                 "scanned again on the next iteration (quadratic work on a long run); conditions: %s"
+                 % (e.d["scanner"], "; ".join(seg.st.conds[-4:])[:200]))
 
     # -- R-SPEC-PURITY: no diagnostics while a checkpoint is live ------------------------------------
     def r_spec_purity(self, I, seg):
